@@ -474,8 +474,8 @@ def rule_parse_dates(ck):
 
 
 def run(ck):
-    rule_validate(ck)
-    rule_pagination(ck)
-    rule_params(ck)
-    rule_formats(ck)
-    rule_parse_dates(ck)
+    ck.attempt(rule_validate)
+    ck.attempt(rule_pagination)
+    ck.attempt(rule_params)
+    ck.attempt(rule_formats)
+    ck.attempt(rule_parse_dates)
